@@ -162,7 +162,12 @@ where
 
         let (result, mode) = if settled_by_sender {
             // If the message is pre-settled, there is no need to
-            // add to the unsettled map and no need to reply to the Sender
+            // add to the unsettled map and no need to reply to the Sender.
+            // The earlier frames of a multi-frame delivery may have been recorded already
+            {
+                let mut lock = self.unsettled.write();
+                let _ = lock.as_mut().and_then(|map| map.swap_remove(&delivery_tag));
+            }
             let result = T::decode_message_from_reader(payload.into_reader());
             (result, None)
         } else {
@@ -277,10 +282,11 @@ where
                 .and_then(|map| map.swap_remove(&delivery_info.delivery_tag))
         } else {
             let mut lock = self.unsettled.write();
-            // If the key is present in the map, the old value will be returned, which
-            // we don't really need
-            lock.get_or_insert(OrderedMap::new())
-                .insert(delivery_info.delivery_tag.clone(), Some(state.clone()))
+            // Only a delivery that is still unsettled is updated. One that was sent pre-settled
+            // or has already been settled by the sender must not (re-)enter the unsettled map
+            lock.as_mut()
+                .and_then(|map| map.get_mut(&delivery_info.delivery_tag))
+                .map(|entry| entry.replace(state.clone()))
         };
 
         // Only dispose if message is found in unsettled map
@@ -499,8 +505,13 @@ impl<T> ReceiverLink<T> {
         } else {
             let mut lock = self.unsettled.write();
             for info in consecutive_infos {
-                lock.get_or_insert(OrderedMap::new())
-                    .insert(info.delivery_tag.clone(), Some(state.clone()));
+                // Only deliveries that are still unsettled are updated
+                if let Some(entry) = lock
+                    .as_mut()
+                    .and_then(|map| map.get_mut(&info.delivery_tag))
+                {
+                    *entry = Some(state.clone());
+                }
             }
         }
 
